@@ -13,8 +13,8 @@ claim('C09', 'loop-progress rule (must-pass-through on every cycle query->query 
       '(about 300 functions) is reached by content of a cached change without a dominating length check or clamp, apart from four reviewed sites (a panic there poisons the cache locks).',
       'rustc front end + MIR; mirfacts; user-supplied Decode/DeserializerAdapter terminate; topic-cache iterators are finite.',
       'DESIGN.md section 4 C09')
-claim('C10', 'abstract interpretation of MIR over a finite ordering domain (exhaustive truth table) + provenance rules',
-      'Exhaustive over a finite abstract domain: the MIR of compliance_failure_wrt_impl and of every comparator it reaches is interpreted for every combination of '
+claim('C10', 'abstract interpretation of MIR over a finite ordering domain (exhaustive truth table) + provenance rules; PL-CDR table extraction for the eight request/offered policies',
+      'Also decided (structurally, not exhaustively): each RxO policy is announced whenever present, independent of its value, and read back with the same wire type, so both sides evaluate the same QoS. Exhaustive over a finite abstract domain: the MIR of compliance_failure_wrt_impl and of every comparator it reaches is interpreted for every combination of '
       'presence, enum variant, boolean and weak ordering of the scalar fields, and the verdict compared with the DDS 1.4 2.2.3 request/offered table '
       '(obligations = valuations, all discharged). Call-site roles (offered vs requested) and comparator hygiene are decided by provenance rules.',
       'rustc front end + MIR; mirfacts; the rdv.absint interpreter and its std comparator semantics; the RxO table as transcribed in rules/C10.py; Durations normalised.',
@@ -43,23 +43,23 @@ claim('C17', 'gating analysis: dominance / edge-cut rules over the call graph an
       'rustc front end + MIR (security feature set); mirfacts; std Option/Result::map semantics; governance attributes correct (C18); crypto plugin verifies (C16).',
       'DESIGN.md section 4 C17')
 
-claim('C16', 'must-pass-through (edge-cut with infeasible-edge pruning) and result-use rules on the security-feature MIR',
-      'Decides that the builtin crypto plugin cannot release data without a successful verification: in the three decode functions every value that can be a success '
+claim('C16', 'must-pass-through (edge-cut with infeasible-edge pruning) and result-use rules on the security-feature MIR; provenance of the key-id comparison and of the payload framing',
+      'Also decided: the header key id is compared on the single key material selected for the scope; the payload framing/footer-location facts (F15, known finding: protected payloads of length not divisible by 4 are dropped). Decides that the builtin crypto plugin cannot release data without a successful verification: in the three decode functions every value that can be a success '
       'in a GMAC/GCM arm is defined on the Ok continuation of validate_mac/decrypt; no verification result is discarded or defaulted; the receiver-specific MAC '
       'predicate is true only without a receiver-specific key or on a MAC verified under that key, and every caller gates success on it; header kind/key id are '
       'compared with the key material. That altered bytes fail verification is a property of AES-GCM/GMAC (ring) and is assumed.',
       'rustc front end + MIR (security feature set); mirfacts; ring AEAD; std Result::map/and_then/map_or_else semantics.',
       'DESIGN.md section 4 C16')
 
-claim('C18', 'provenance (value-is-verified chase through Result combinators), who-may-read, first-match shape rules; exhaustive abstract interpretation of the interval and entity-kind formulas',
-      'Decides: access-control XML is parsed only from the Ok value of SignedDocument::verify_signature (3 sites); the raw content is readable only by the verifier; verify_signature '
+claim('C18', 'provenance (value-is-verified chase through Result combinators), who-may-read, first-match shape rules; exhaustive abstract interpretation of the interval and entity-kind formulas; type-driven allow-list of instant-preserving timestamp conversions',
+      'Also decided: a zoned validity bound is converted only by instant-preserving operations. Decides: access-control XML is parsed only from the Ok value of SignedDocument::verify_signature (3 sites); the raw content is readable only by the verifier; verify_signature '
       'returns Ok only past the digest equality and the signature verification over that content; the four rule lookups take the first match of a forward iteration with the documented '
       'fallbacks (default_action, missing topic rule => protected); DomainIds::matches and the entity-kind/protection tables are compared exhaustively with their reference formulas; '
       'result = unprotected OR permitted. Glob/subject matching, XML parsing and the signature algorithm are assumed.',
       'rustc front end + MIR (security feature set); mirfacts; rdv.absint; std Iterator::find / Option / Result combinator semantics; ring signature verification.',
       'DESIGN.md section 4 C18')
-claim('C19', 'pairing (swap-out / write-back on every exit) and dominance (verification Ok-edges cut every path to a trusted state) rules on the security-feature MIR',
-      'Decides: every transition to CompletedWithFinalMessage* and every shared-secret computation lies behind the Ok continuations of the Identity-CA certificate check, the GUID '
+claim('C19', 'pairing (swap-out / write-back on every exit) and dominance (verification Ok-edges cut every path to a trusted state) rules on the security-feature MIR; accepting-state sets of the lowered state matches',
+      'Also decided: each handshake entry point can succeed only from the state(s) in which its message is expected. Decides: every transition to CompletedWithFinalMessage* and every shared-secret computation lies behind the Ok continuations of the Identity-CA certificate check, the GUID '
       'binding check, the challenge echoes and the signature verification of that step; begin_handshake_reply verifies before accepting; no verification result is discarded; and '
       'whether the state swapped out of the handshake machine is restored on every exit (it is not: known finding F10, demonstrated). X.509, ECDH and signature algorithms are assumed.',
       'rustc front end + MIR (security feature set); mirfacts; ring / x509 verification.',
@@ -81,16 +81,16 @@ claim('C01', 'provenance (origin terms with capture / getter resolution) and gua
       'Ordering over arbitrary DATA/GAP/HEARTBEAT histories is NOT decided.',
       'rustc front end + MIR; mirfacts; BTreeMap::range semantics; naming convention *_before = exclusive bound (R01.6).',
       'DESIGN.md section 4 C01')
-claim('C03', 'who-may-write + guard rules on the acknowledgment frontier, provenance rules on ACKNACK / NACKFRAG construction',
-      'Decides: ack_base is written only monotonically (constructors, + k in advance_ack_base, guarded jump in irrelevant_changes_range) and advanced exactly when a number equals it; '
+claim('C03', 'who-may-write + guard rules on the acknowledgment frontier, provenance rules on ACKNACK / NACKFRAG construction; exclusive-bound discipline of irrelevant ranges (shared with C01/C02)',
+      'Also decided: irrelevant ranges never cover their exclusive end. Decides: ack_base is written only monotonically (constructors, + k in advance_ack_base, guarded jump in irrelevant_changes_range) and advanced exactly when a number equals it; '
       'counts come from a post-incremented counter; the ACKNACK base is first() of the unfiltered missing list (ack_base when nothing is missing) and the list scans '
       '[max(hb.first, ack_base), hb.last] reporting only numbers absent from `changes`; the set is limited to the 256 window; NACKFRAGs name the missing fragments of their sample. '
       'That every listed number is really missing over arbitrary histories is NOT decided.',
       'rustc front end + MIR; mirfacts.',
       'DESIGN.md section 4 C03')
 
-claim('C02', 'handler-completeness, drain-until-empty and timer re-arm pairing rules (edge cuts on MIR); role-pair comparison normalisation shared with C20',
-      'Convergence over fault schedules is NOT decided. Decided structural necessary conditions: a received ACKNACK always reaches Writer::handle_ack_nack of the writer it names '
+claim('C02', 'handler-completeness, drain-until-empty and timer re-arm pairing rules (edge cuts on MIR); role-pair comparison normalisation shared with C20; exclusive-bound discipline of GAP ranges (shared with C01/C03)',
+      'Also decided: an exclusive gapList.base / HEARTBEAT.first used as the end of an inclusive range is decremented. Convergence over fault schedules is NOT decided. Decided structural necessary conditions: a received ACKNACK always reaches Writer::handle_ack_nack of the writer it names '
       '(channel drained until empty); the Heartbeat and CacheCleaning arms always re-arm, the repair arms re-arm exactly while repair is pending; heartbeats are suppressed and repair '
       'switched off only under last-written < acked-before (for all readers); repair switches on with its timer armed; the reader answers every informative or non-final HEARTBEAT.',
       'rustc front end + MIR; mirfacts; mio timer semantics.',
@@ -103,8 +103,8 @@ claim('C04', 'guard dominance (edge cuts), provenance and who-may-prune rules on
       'rustc front end + MIR; mirfacts; BTreeSet semantics (insert => non-empty).',
       'DESIGN.md section 4 C04')
 
-claim('C05', 'guard (edge-cut) and provenance rules on the fragment assembler MIR',
-      'Byte-exact reassembly for every size / fragment size / order is a value property and is NOT decided. Decided: a sample is released only on is_complete() of the buffer '
+claim('C05', 'guard (edge-cut) and provenance rules on the fragment assembler MIR; polynomial normal forms of sibling formulas (writer split vs reader placement, fragment counts, announced size vs sliceable bytes)',
+      'Also decided (as agreement of sibling formulas on polynomial normal forms, not by computing bytes): the writer cuts fragment n as bytes (n-1)*fs .. min(n*fs, size) with the header fields it announces, the reader places it at the same offset, both sides count ceil(size/fs) fragments, and the announced size is the length of the object the slices are cut from. Byte-exact reassembly for every size / fragment size / order is a value property and is NOT decided. Decided: a sample is released only on is_complete() of the buffer '
       'selected by the DATAFRAG\'s own sequence number, is_complete() is the all() of the per-fragment bitmap (not an arrival count), the buffer is removed on release and its bytes '
       'are what is released; every carried fragment sets its own bit; assemblers are keyed by the sending writer\'s guid.',
       'rustc front end + MIR; mirfacts; BitVec / BTreeMap semantics.',
@@ -116,15 +116,15 @@ claim('C08', 'effect (who-may-remove), must-call and monotone-write rules on the
       'rustc front end + MIR (polymorphic bodies); mirfacts.',
       'DESIGN.md section 4 C08')
 
-claim('C14', 'provenance of header lengths, path-enumerated codec sequence agreement, controlling-condition comparison, interval reasoning over window constants, store-aware path evaluation with guard entailment (all on MIR)',
-      'Round-trip equality for all values is NOT decided. Decided: every SubmessageHeader.content_length is the length of the very body in the same Submessage or a literal equal to '
+claim('C14', 'provenance of header lengths, path-enumerated codec sequence agreement, controlling-condition comparison, interval reasoning over window constants, store-aware path evaluation with guard entailment, size polynomials of write_to paths vs len_serialized expressions with modulo-4 reasoning (all on MIR)',
+      'Round-trip equality for all values is NOT decided. Decided: for every type with both, len_serialized() equals the bytes write_to emits for all presence combinations and element counts (raised F14, fixed); every SubmessageHeader.content_length is the length of the very body in the same Submessage or a literal equal to '
       'the fixed size computed from the ADT table; the hand-written SequenceNumber / NumberSet / SubmessageHeader codecs write and read the same primitive sequence on every path; the '
       'InlineQos flag and inline_qos presence share one controlling condition and the DDSData variant table matches the reader\'s; from_base_and_set can never produce more bits than '
       'read_from accepts (256), and on every path of NumberSetIter::next/next_back to a result the comparisons passed entail index < rev_at_bit <= num_bits (no member outside the window).',
       'rustc front end + MIR; mirfacts; derived speedy codecs agree by construction; Data/DataFrag cursor parsers not covered by the sequence rule.',
       'DESIGN.md section 4 C14')
-claim('C15', 'table extraction from MIR (ParameterId constant, wire type argument, multiplicity from control shape) and table agreement; emission-condition classification',
-      'Byte-level CDR of parameter values is NOT decided. Decided for SPDP participant data, SEDP reader/writer/topic data and QosPolicies in both feature configurations (about 140 '
+claim('C15', 'table extraction from MIR (ParameterId constant, wire type argument, multiplicity from control shape) and table agreement; emission-condition classification; store-aware path evaluation of the pad arguments of hand-aligned value codecs',
+      'Also decided: in the hand-aligned value codecs every pad length is the length of the value just read/written on every path (loops crossed), and no variable-length value lacks a following pad. Byte-level CDR of parameter values is NOT decided. Decided for SPDP participant data, SEDP reader/writer/topic data and QosPolicies in both feature configurations (about 140 '
       'parameters each): every parameter written is read with the same wire type and compatible multiplicity and vice versa; whether a parameter is written depends only on presence / '
       'variant of its field, never on its value; absent optionals decode to the RTPS defaults; the parameter-list reader is id-agnostic up to the sentinel. Six write-only parameters '
       'of fields documented as not implemented are listed as known findings (F13, demonstrated).',
